@@ -207,7 +207,7 @@ class Collector(object):
         # `shrink_cap_s` (the last failing case still fails when Hypothesis replays it at the end)
         self.shrink_cap_s = 40 if tier == 'quick' else 240
         self.fail_t0 = {}
-        self.last_fail_hash = {}
+        self.fail_hashes = {}
         self.skipped_shrink = 0
 
     def run_case(self, sub, case, replaying=False):
@@ -216,7 +216,7 @@ class Collector(object):
             self.skipped_budget += 1
             return
         if not replaying and sub.name in self.fail_t0 and time.time() - self.fail_t0[sub.name] > self.shrink_cap_s \
-                and case_hash(case) != self.last_fail_hash.get(sub.name):
+                and case_hash(case) not in self.fail_hashes.get(sub.name, ()):
             self.skipped_shrink += 1
             return
         try:
@@ -227,7 +227,7 @@ class Collector(object):
             kf = match_known(self.known, sub.name, case, v)
             if kf is None:
                 self.fail_t0.setdefault(sub.name, time.time())
-                self.last_fail_hash[sub.name] = case_hash(case)
+                self.fail_hashes.setdefault(sub.name, set()).add(case_hash(case))
             if kf is not None:
                 self.known_hits[kf] += 1
                 self.known_examples.setdefault(kf, {'sub': sub.name, 'case': trim(case),
